@@ -52,6 +52,13 @@ extern "C" int pthread_mutex_lock(pthread_mutex_t* m)
     return real(m);
 }
 #include CONT_API
+// methods 24..27 are the iterator-pair overloads of 20..23 (fifo_cache only, see ranges.hpp)
+#if METHOD >= 24 && METHOD <= 27
+#define RANGE_ITER_FORM 1
+#define METHOD_EFF (METHOD - 4)
+#else
+#define METHOD_EFF METHOD
+#endif
 #include "clauses.hpp"
 #include "exec.hpp"
 #include "ranges.hpp"
@@ -76,13 +83,13 @@ static uint64_t opA(C& c, uint64_t k1, uint64_t k2)
     Ev e[RMAX];
     for (int j = 0; j < RMAX; ++j) { e[j].op = METHOD; e[j].k = j == 0 ? k1 : k2; e[j].v = 500 + j; e[j].a = 3; e[j].pk = true; e[j].ttl = 1000000; e[j].now = 0; }
     Res out[RMAX]; bool ko = true; Res r;
-#if METHOD == M_INSERT_RANGE
+#if METHOD_EFF == M_INSERT_RANGE
     return x_insert_range(c, e, 2, 3);
-#elif METHOD == M_ERASE_RANGE
+#elif METHOD_EFF == M_ERASE_RANGE
     return x_erase_range(c, e, 2);
-#elif METHOD == M_FIND_RANGE
+#elif METHOD_EFF == M_FIND_RANGE
     { uint64_t n = x_find_range(c, e, 2, false, out, &ko); return n * 100 + out[0].ok * 10 + out[1].ok + 1000 * (out[0].ok ? out[0].val : 0) + 1000000 * (out[1].ok ? out[1].val : 0); }
-#elif METHOD == M_FIND_RANGE_FILL
+#elif METHOD_EFF == M_FIND_RANGE_FILL
     { x_find_range_fill(c, e, 2, false, out, &ko); return out[0].ok * 10 + out[1].ok + 1000 * (out[0].ok ? out[0].val : 0) + 1000000 * (out[1].ok ? out[1].val : 0); }
 #elif METHOD == OP_CLEAN && T_HAS_CLEAN
     return c.clean_expired_values();
